@@ -55,13 +55,7 @@ payload length ≤ 2^32 − 11 -/
 theorem validate_iff (len typ : Nat) :
     Gen.llrp_validateHeader len typ = true ↔ typ ≤ 1023 ∧ ¬ (900 ≤ typ ∧ typ ≤ 999) ∧ len ≤ 4294967285 := by
   unfold Gen.llrp_validateHeader
-  split
-  · simp_all; omega
-  · split
-    · simp_all; omega
-    · split
-      · simp_all; omega
-      · simp_all; omega
+  go_bool_arith
 
 /-- encoding refuses exactly the reserved / out-of-range types and over-long payloads -/
 theorem marshal_refuses (h : Header) :
@@ -219,8 +213,7 @@ theorem mirror_valid : ∀ e ∈ Gen.mirrorType, Gen.llrp_MessageType_IsValid e.
 theorem isValid_iff (t : Nat) :
     Gen.llrp_MessageType_IsValid t = true ↔ (1 ≤ t ∧ t ≤ 1023 ∧ ¬ (900 ≤ t ∧ t ≤ 999)) := by
   unfold Gen.llrp_MessageType_IsValid
-  simp only [Bool.and_eq_true, decide_eq_true_eq, Bool.not_eq_true', Bool.and_eq_false_iff, decide_eq_false_iff_not]
-  omega
+  go_bool_arith
 
 example : lookup 20 Gen.mirrorType = some 30 := by decide
 example : (specPairs Gen.schema).length = 38 := by decide
